@@ -243,16 +243,47 @@ Definition no_pct (o : url_obs) : bool :=
   forallb (fun '(k, v) => np k && match v with Some v => np v | None => true end) (uo_query o) &&
   np (uo_frag o).
 
+(* ---- what URL(t) reads out of a well-formed reference ------------------------------------------------------
+   The components of the parsed URL are the RFC 3986 Appendix B pieces of t, percent-decoded: scheme as
+   written; username/password = the userinfo before '@' split at its first ':'; one path segment per '/';
+   fragment; and the query read as a form (application/x-www-form-urlencoded: pairs separated by '&' or ';',
+   empty pairs dropped, key/value split at the first '=', '+' is a space, a pair without '=' has no value). *)
+Definition otx (o : option text) : text := match o with Some x => x | None => [] end.
+Definition form_text (s : text) : text := ref_unquote (map (fun c => if c =? 43 then 32 else c) s).
+Definition form_pairs (q : text) : list (text * option text) :=
+  flat_map (fun p => match p with
+                     | [] => []
+                     | _ => let '(k, sep, v) := partition 61 p in
+                            [(form_text k, if (sep : bool) then Some (form_text v) else None)]
+                     end)
+           (flat_map (split_on 59) (split_on 38 q)).
+Definition userinfo_of (au : text) : text * text :=
+  let '(ui, at_, _) := partition 64 au in
+  if (at_ : bool) then let '(u, _, p) := partition 58 ui in (u, p) else ([], []).
+
+Definition reads_ok (t : text) (o : url_obs) : bool :=
+  let '(sch, au, path, q, f) := rfc_split t in
+  let '(u, p) := userinfo_of (otx au) in
+  text_eqb (uo_scheme o) (otx sch) &&
+  text_eqb (uo_user o) (ref_unquote u) && text_eqb (uo_pass o) (ref_unquote p) &&
+  texts_eqb (uo_path o) (map ref_unquote (split_on 47 path)) &&
+  pairs_eqb (uo_query o) (form_pairs (otx q)) &&
+  text_eqb (uo_frag o) (ref_unquote (otx f)).
+
 (* host_valid: the host of the parsed URL is one the property speaks about - empty, an IP literal, or
    a name whose IDNA (ToASCII) form is an RFC 3986 reg-name that ToUnicode accepts.  (The stdlib codec
    does not apply the STD3 rules, so e.g. a full-width '@' or a Kelvin sign after 'xn--' encodes to
    text that is no host name; such hosts are outside "valid host".) *)
+(* parse_ok: URL(t) raises nothing but URLParseError; for a well-formed reference t that parses, the components are
+   the Spec's reading of t (reads_ok) and the rendered texts are fixed points (full quoting when the host is valid,
+   minimal quoting when no component contains '%') *)
 Definition parse_ok (host_valid : bool) (t : text) (r : res url_obs) (f1 f2 m1 m2 : res text) : bool :=
   match r with
   | Raise URLParseError => true                    (* the only failure allowed *)
   | Raise _ => false
   | Ok o =>
     if wf_ref true t then
+      reads_ok t o &&
       (if host_valid then
          match f1 with
          | Ok t1 => match f2 with Ok t2 => text_eqb t1 t2 | Raise _ => false end
